@@ -484,6 +484,11 @@ func splitHostURI(host, uri []byte) ([]byte, []byte, []byte) {
 	if scheme == nil {
 		return bytestr.StrHTTP, host, uri
 	}
+	if !bytes.HasPrefix(path, bytestr.StrSlashSlash) {
+		// "scheme:opaque" without an authority part (e.g. the request target "a:b"):
+		// there is no host to split off
+		return bytestr.StrHTTP, host, uri
+	}
 
 	uri = path[len(bytestr.StrSlashSlash):]
 	n := bytes.IndexByte(uri, '/')
